@@ -2318,6 +2318,14 @@ func (c *compiler) VisitAssignStmt(s *ast.AssignStmt) ast.VisitResult {
 		index = c.floatOrByteAsInt(index, indexTyp)
 		c.cbb.NewCall(c.ddpstring.replaceCharIrFun, lhs, rhs, index)
 	} else {
+		// the new value might be (a part of) the old value, e.g. Speichere x in x.
+		// so it has to be copied before the old value is freed
+		if !isTempRhs && !rhsTyp.IsPrimitive() {
+			rhs = c.deepCopyInto(c.NewAlloca(rhsTyp.IrType()), rhs, rhsTyp)
+			rhs, rhsTyp = c.scp.addTemporary(rhs, rhsTyp)
+			isTempRhs = true
+		}
+
 		c.freeNonPrimitive(lhs, lhsTyp) // free the old value in the variable/list
 
 		// implicit cast to any if required
